@@ -124,6 +124,52 @@ func (e *Engine) verifyBlock(blk *Block) (u *Unit) {
 			c.addObl(&Obligation{Name: fmt.Sprintf("%s/post%d@ret%d", name, cl.Index, ri), Kind: "post", Fn: name, Pos: e.ld.Prog.Fset.Position(rpos), Text: "ensures " + cl.Text, Reach: r.st.Reach, Goal: t, Clause: cl})
 		}
 	}
+	// frame obligations: object fields of the types of the named pointer
+	// parameters change only at those objects
+	if len(blk.Modifies) > 0 && !blk.Flags["trusted"] {
+		for ri, r := range f.rets {
+			for _, m := range blk.Modifies {
+				for i, pn := range blk.ParamNames {
+					if pn != m || i >= len(fn.Params) {
+						continue
+					}
+					pt, ok := fn.Params[i].Type().Underlying().(*types.Pointer)
+					if !ok {
+						continue
+					}
+					prefix := "H|" + typeKey(pt.Elem()) + "|"
+					var refs []Term
+					for _, m2 := range blk.Modifies {
+						for j, pn2 := range blk.ParamNames {
+							if pn2 == m2 && j < len(fn.Params) {
+								if pt2, ok2 := fn.Params[j].Type().Underlying().(*types.Pointer); ok2 && "H|"+typeKey(pt2.Elem())+"|" == prefix {
+									refs = append(refs, f.argVals[j][0])
+								}
+							}
+						}
+					}
+					for key, fin := range r.st.Heap {
+						if !strings.HasPrefix(key, prefix) {
+							continue
+						}
+						ent := c.heapGet(f.entry, key, fin.Sort)
+						if ent.S == fin.S {
+							continue
+						}
+						c.n++
+						q := Term{fmt.Sprintf("fr!%d", c.n), SInt}
+						var ne []Term
+						for _, rf := range refs {
+							ne = append(ne, Not(Eq(q, rf)))
+						}
+						ne = append(ne, Lt(q, f.entry.Alloc)) // objects allocated by the call itself are not part of the frame
+						goal := Forall([]Term{q}, Implies(And(ne...), Eq(Select(fin, q), Select(ent, q))))
+						c.addObl(&Obligation{Name: fmt.Sprintf("%s/frame:%s@ret%d", name, smtSym(key), ri), Kind: "post", Fn: name, Pos: e.ld.Prog.Fset.Position(fn.Pos()), Text: "modifies " + strings.Join(blk.Modifies, ", ") + "  [" + key + " unchanged elsewhere]", Reach: r.st.Reach, Goal: goal})
+					}
+				}
+			}
+		}
+	}
 	if len(f.rets) == 0 && len(blk.Post) > 0 {
 		u.Err = "no return point reached (postconditions vacuous)"
 	}
